@@ -27,7 +27,7 @@ CHECKS = {
     floors={'C03.divff': {'zero-divisor': 0.005, '|a|>=2^47': 0.15}, 'C03.divint': {'zero-divisor': 0.02}}),
  'C04': dict(
     rule="every integral type: generated n (type classes and limits) through five conversion spellings, generated finite x through three fixed->T spellings, and an enumeration of all int8/uint8/int16/uint16 values (int32/uint32 strided quick, complete thorough); non-trivial = n out of range or within 2^16 of +-(2^31-1), floor(x) not representable in T or at a limit, negative fractions",
-    clauses=[rc('C04.fromint', 6000000, 160000000), rc('C04.toint', 6000000, 160000000), sweep('C04.sweep')],
+    clauses=[rc('C04.fromint', 6000000, 160000000), rc('C04.toint', 6000000, 160000000), sweep('C04.sweep'), rc('C04.twice', 2000000, 80000000)],
     floors={'C04.fromint': {'out-of-range->NaN': 0.08}, 'C04.toint': {'k-not-representable->0': 0.20}}),
  'C05': dict(
     rule="float and double bit patterns (exponent-uniform, specials, ties) through three conversion spellings, finite raw x through fixed->float/double and the double round trip, and an enumeration of float bit patterns (strided quick, all 2^32 thorough); non-trivial = non-finite / out of range, inexact, exact tie, |v| >= 2^30, float rounding needed, round-trip band",
@@ -35,7 +35,7 @@ CHECKS = {
     floors={'C05.f64': {'inexact': 0.30, 'exact-tie': 0.01}, 'C05.f32': {'inexact': 0.10}}),
  'C06': dict(
     rule="pairs of raw values incl. both NaN sentinels (equal, adjacent, mirrored) x six comparisons; single values for isnan / negation / abs; non-trivial = a NaN or +-MAXF operand, |a-b| <= 1, |x| >= 2^62",
-    clauses=[rc('C06.cmp', 12000000, 480000000), rc('C06.unary', 8000000, 320000000), sweep('C06.grid')],
+    clauses=[rc('C06.cmp', 12000000, 480000000), rc('C06.unary', 8000000, 320000000), sweep('C06.grid'), rc('C06.twice', 1000000, 40000000)],
     floors={'C06.cmp': {'NaN-or-limit-operand': 0.10, '|a-b|<=1': 0.10}, 'C06.unary': {'NaN': 0.05}}),
  'C15': dict(
     rule="finite raw x with |x| < 2^47-1, one third integer-valued; floor and ceil compared with the unique values the bracketing inequalities determine, plus ceil(x) == -floor(-x); non-trivial = integer-valued, within 2 raw of an integer, |raw| >= 2^62",
@@ -51,7 +51,7 @@ CHECKS = {
     floors={'C17.laws': {'precondition-true': 0.40}, 'C17.hist': {'model-reaches-NaN': 0.15, 'all-finite': 0.15}}),
  'C18': dict(
     rule="(finite raw x, count in [INT_MIN,63]) for both shifts, a quarter of the cases straddling the range limit; pairs of raw values for &; non-trivial = negative count, count in {0,62,63}, negative x, x*2^r out of range, negative & operand",
-    clauses=[rc('C18.shift', 12000000, 480000000), rc('C18.and', 6000000, 240000000), rc('C18.const', 4000000, 160000000, kprog=True), sweep('C18.gridshift'), sweep('C18.gridand')],
+    clauses=[rc('C18.shift', 12000000, 480000000), rc('C18.and', 6000000, 240000000), rc('C18.const', 4000000, 160000000, kprog=True), rc('C18.twice', 2000000, 80000000), sweep('C18.gridshift'), sweep('C18.gridand')],
     floors={'C18.shift': {'negative-count': 0.1, 'shl-out-of-range': 0.1}}),
 
  'C09': dict(
@@ -78,7 +78,7 @@ CHECKS = {
     floors={'C14.hypot': {'branch:hi>=2^30(shift-right)': 0.15, 'branch:lo<2^16(shift-left)': 0.15, 'branch:direct': 0.10, 'threshold+-8': 0.03}}),
  'C19': dict(
     rule="all table entries; int32 degrees (generated + enumerated) for the *_angle_aprox functions; sqrt_aprox and atan_index_aprox over exhaustive low ranges, lattices and table-entry neighbourhoods; non-trivial = negative / > 360 degrees, binade edges, large arguments, every table entry",
-    clauses=[sweep('C19.tables'), rc('C19.angle', 10000000, 160000000), sweep('C19.anglesweep'), sweep('C19.sqrt_aprox'), sweep('C19.atan_index')], floors={'C19.angle': {'negative-degrees': 0.2}}),
+    clauses=[sweep('C19.tables'), rc('C19.angle', 10000000, 160000000), sweep('C19.anglesweep'), sweep('C19.sqrt_aprox'), sweep('C19.atan_index'), sweep('C19.staticinit'), sweep('C19.angletypes')], floors={'C19.angle': {'negative-degrees': 0.2}}),
  'C20': dict(
     rule="angle_to_radians<T> generated and enumerated per integral type; sin/cos/tan_angle for every integer d in [-360,360] and every argument type able to carry d; non-trivial = outside [0,360], 8-bit types beyond 104, negative d, d in (135,180) u (315,360)",
     clauses=[rc('C20.a2r', 6000000, 160000000), sweep('C20.a2rsweep'), sweep('C20.angle')], floors={'C20.a2r': {'outside[0,360]->NaN': 0.2}}),
